@@ -164,6 +164,11 @@ def parse_kani_output(out):
                 r["status"] = "success"
             elif ln.startswith("VERIFICATION:- FAILED"):
                 r["status"] = "failed"
+            if ln.startswith("CBMC timed out"):
+                r["timed_out"] = True
+                cur = None
+            if ln.startswith("Manual Harness Summary") or ln.startswith("Complete - "):
+                cur = None
             m = RE_TIME.match(ln)
             if m:
                 r["time_s"] = float(m.group(1))
@@ -174,7 +179,7 @@ def parse_kani_output(out):
     return res
 
 
-def run_kani_group(ws, pkg, features, harnesses, timeout, extra=None, jobs=None):
+def run_kani_group(ws, pkg, features, harnesses, timeout, extra=None, jobs=None, harness_timeout=None):
     """One cargo-kani invocation for a (package, feature set). harnesses: list of
     harness paths (suffix patterns accepted by --harness). Returns (results, raw_output, wall)."""
     cmd = ["cargo", "kani", "-p", pkg]
@@ -182,6 +187,8 @@ def run_kani_group(ws, pkg, features, harnesses, timeout, extra=None, jobs=None)
         cmd += ["--features", features]
     cmd += KANI_FLAGS + ["--output-format", "terse", "-j", str(jobs or min(NCPU, max(1, len(harnesses))))]
     cmd += (extra or [])
+    if harness_timeout:
+        cmd += ["-Z", "unstable-options", "--harness-timeout", "%ds" % harness_timeout]
     for h in harnesses:
         cmd += ["--harness", h]
     rc, out, wall = sh(cmd, cwd=ws, timeout=timeout)
